@@ -152,3 +152,38 @@ package PVM
 //@   ensures oog: old(*input.VM.Gas) < 10 ==> output.ExitReason == ExitOOG && *input.VM.Gas == old(*input.VM.Gas) - 10 && frame_only(*input.VM.Gas)
 //@   ensures panic_clean: output.ExitReason == ExitPanic ==> *input.VM.Gas == old(*input.VM.Gas) - 10 && frame_only(*input.VM.Gas)
 //@   assigns everything
+
+// Memory.Write: callers have established the range with isWriteable; only octets of byte arrays change (no page table,
+// no page record). That the written range then holds the data is NOT stated (the clause did not discharge in budget).
+//@ func (*Memory).Write
+//@   props C07 C33 C05
+//@   requires mapped: m != nil && (len(data) == 0 || range_mapped(m, start, uint64(len(data)))) && len(data) <= 4294967296
+//@   ensures frame: frame_only(anybytes())
+//@   assigns everything
+//@   loop copied#0
+//@     invariant progress: copied >= 0 && copied <= len(data) && len(data) != 0 && range_mapped(m, start, uint64(len(data))) && len(data) <= 4294967296
+//@     invariant page: copied == len(data) || (uint64(pageNumber)*4096 + pageIndex == start + uint64(copied) && pageIndex < 4096)
+//@     invariant frame: frame_only(anybytes())
+
+// peek (host call 9) / poke (host call 10): clean exits; WHO / OOB leave everything but gas and omega7 untouched;
+// a successful copy changes octets of byte arrays only (no page table, no machine table entry, no register but omega7)
+//@ pred inner_wf(input) = input.Addition.RefineArgs.IntegratedPVMMap != nil && allkeys(h, input.Addition.RefineArgs.IntegratedPVMMap, input.Addition.RefineArgs.IntegratedPVMMap[h].Memory.Pages != nil && all(pg, uint32, has(input.Addition.RefineArgs.IntegratedPVMMap[h].Memory.Pages, pg) ==> pg >= 16 && pg < 1048576 && input.Addition.RefineArgs.IntegratedPVMMap[h].Memory.Pages[pg] != nil && len(input.Addition.RefineArgs.IntegratedPVMMap[h].Memory.Pages[pg].Value) == 4096))
+//@ func peek
+//@   props C33 C07 C04
+//@   requires vm: hc_vm(input)
+//@   requires inner: inner_wf(input)
+//@   ensures oog: old(*input.VM.Gas) < 10 ==> output.ExitReason == ExitOOG && *input.VM.Gas == old(*input.VM.Gas) - 10 && frame_only(*input.VM.Gas)
+//@   ensures panic_clean: output.ExitReason == ExitPanic ==> *input.VM.Gas == old(*input.VM.Gas) - 10 && frame_only(*input.VM.Gas)
+//@   ensures error_clean: output.ExitReason == ExitContinue && (input.VM.Registers[7] == WHO || input.VM.Registers[7] == OOB) ==> frame_only(*input.VM.Gas, input.VM.Registers[7])
+//@   ensures ok: output.ExitReason == ExitContinue && input.VM.Registers[7] != WHO && input.VM.Registers[7] != OOB ==> input.VM.Registers[7] == OK
+//@   assigns everything
+
+//@ func poke
+//@   props C33 C07 C04
+//@   requires vm: hc_vm(input)
+//@   requires inner: inner_wf(input)
+//@   ensures oog: old(*input.VM.Gas) < 10 ==> output.ExitReason == ExitOOG && *input.VM.Gas == old(*input.VM.Gas) - 10 && frame_only(*input.VM.Gas)
+//@   ensures panic_clean: output.ExitReason == ExitPanic ==> *input.VM.Gas == old(*input.VM.Gas) - 10 && frame_only(*input.VM.Gas)
+//@   ensures error_clean: output.ExitReason == ExitContinue && (input.VM.Registers[7] == WHO || input.VM.Registers[7] == OOB) ==> frame_only(*input.VM.Gas, input.VM.Registers[7])
+//@   ensures ok: output.ExitReason == ExitContinue && input.VM.Registers[7] != WHO && input.VM.Registers[7] != OOB ==> input.VM.Registers[7] == OK && frame_only(*input.VM.Gas, input.VM.Registers[7], anybytes())
+//@   assigns everything
